@@ -53,7 +53,9 @@ MoreAtoms == {
   \* counterfactual (multi-world) terms: P(+V1 @ (-V2, +V3), V2) and P(-V1 @ (-V2, -V3) | V3)
   \* (they have a meaning in the functional family only: the calculator group is validated with Fam = "F")
   Pj(<<VIv(1, 2, <<<<2, 1>>, <<3, 2>>>>), V0(2)>>),
-  Pc(<<VIv(1, 1, <<<<2, 1>>, <<3, 1>>>>)>>, <<V0(3)>>) }
+  Pc(<<VIv(1, 1, <<<<2, 1>>, <<3, 1>>>>)>>, <<V0(3)>>),
+  \* nested but unequal intervention sets: P(V1 @ V3, V2 @ (V1, V3))
+  Pj(<<VIv(1, 0, <<<<3, 1>>>>), VIv(2, 0, <<<<1, 1>>, <<3, 1>>>>)>>) }
 Atoms == IF AtomSet = "small" THEN SmallAtoms ELSE SmallAtoms \cup MoreAtoms
 
 QAtoms == {[t |-> "Q", dom |-> <<2, 3>>, cod |-> <<1>>], [t |-> "Q", dom |-> <<1>>, cod |-> <<2>>]}
